@@ -8,6 +8,15 @@ assign lm_weight, query - all histories up to depth D.
 
 Oracle: range [0,1], sum of posteriors = 1, equality with the soft-max of vis + weight*lm, shift invariance (1e-9),
 one-hot => 1, monotonicity of the confident-line test in its threshold.
+
+(c) what the SYSTEM reports for a line of a page: PageParser.process_page -> line.transcription_confidence -> conf= in PAGE XML, and
+PageLayout.to_altoxml_string -> line.transcription_confidence, WC= of the words.  Space: every matrix with T <= Texport rows x every
+alignable transcription x the state in which the exporter finds the companions of the logits (characters / logit_coords given, window
+open, no characters, no window, window narrower than the text, text longer than the line - the last four make the exporter's alignment
+unavailable, and it then reports a fall-back value) x every subset of frames shifted.  The root of the input tree - the matrix with NO
+frame - is a node like any other.  (d) histories of load_logits on one long-lived PageLayout: files in the current format (characters +
+logit window) and in the older format (matrices only), of different shapes, one-hot and peaky, every history up to load_depth; after
+every load the export must report what a fresh page that loaded only the last file reports (and 1 for one-hot posteriors).
 """
 import itertools
 import math
@@ -18,7 +27,7 @@ ID = 'C16'
 
 MANIFEST = dict(
     technique='explicit-state enumeration of the logit-matrix input tree x all alignable transcriptions x all frame-shift subsets x threshold grid, and of all operation histories on a live BagOfHypotheses; real confidence code vs range/normalisation/invariance oracles',
-    text='Bounded exhaustive: every logit matrix with T <= 4 rows over a 9-row alphabet (C=3) with every alignable transcription, every subset of frames shifted by -5 / +3.3 (T <= 3), a threshold grid incl. 0, 1, inf and the occurring probabilities, through get_line_confidence, get_letter_confidence, PageParser.compute_line_confidence and line_confident_enough; and every history (depth <= 3 quick / 4 thorough) of add / set-lm_weight / query events on one BagOfHypotheses, whose posteriors must be the soft-max of vis + weight*lm after every event. Added sub-sweeps: frame shifts of +800, thresholds from -inf to inf, logits re-assigned on a live TextLine, float32 logits, caller-supplied log-probabilities passed twice, the cropped-window call of the ALTO exporter, and lines of more than 1000 frames. Frames shifted by -120 (below the floor given to pruned entries) where every class is stored.',
+    text='Bounded exhaustive: every logit matrix with T <= 4 rows over a 9-row alphabet (C=3) with every alignable transcription, every subset of frames shifted by -5 / +3.3 (T <= 3), a threshold grid incl. 0, 1, inf and the occurring probabilities, through get_line_confidence, get_letter_confidence, PageParser.compute_line_confidence and line_confident_enough; and every history (depth <= 3 quick / 4 thorough) of add / set-lm_weight / query events on one BagOfHypotheses, whose posteriors must be the soft-max of vis + weight*lm after every event. Added sub-sweeps: frame shifts of +800, thresholds from -inf to inf, logits re-assigned on a live TextLine, float32 logits, caller-supplied log-probabilities passed twice, the cropped-window call of the ALTO exporter, and lines of more than 1000 frames. Frames shifted by -120 (below the floor given to pruned entries) where every class is stored. Page level: the matrix without frames (root of the tree), and for every matrix with T <= 2 (3 thorough) x every alignable transcription x 6 states of the line\'s characters / logit window (alignment available or not: the exporter\'s fall-back value is a reported confidence too) x every shifted subset of frames, what PageParser.process_page, to_altoxml_string (line confidence, WC) and to_pagexml_string (conf) report; and every history of <= 2 (3 thorough) load_logits calls on one live PageLayout over 16 files (current / older format without window and characters, two shapes, padded or not, one-hot / peaky), exported after every load and compared with a fresh page.',
     note='Real-valued logits outside the alphabet are not explored; word confidences in ALTO are checked under C06.',
     ref='3/C16')
 
@@ -30,7 +39,8 @@ ROWS = [
 ]
 ONEHOT = {0, 1, 2}
 SHIFTS = [-5.0, 3.3]
-BOUNDS = {'quick': dict(T=4, Tshift=3, bag_depth=3), 'thorough': dict(T=5, Tshift=4, bag_depth=4)}
+BOUNDS = {'quick': dict(T=4, Tshift=3, bag_depth=3, Texport=2, Texport_shift=2, load_depth=2),
+          'thorough': dict(T=5, Tshift=4, bag_depth=4, Texport=3, Texport_shift=2, load_depth=3)}
 BOUNDS['replay'] = BOUNDS['quick']
 BASE_T = [float('-inf'), -1.0, -1e-9, 0.0, 1e-6, 0.1, 1 / 3, 0.5, 0.9, 0.99, 1.0, 2.0, float('inf')]
 TOL = 1e-9
@@ -41,17 +51,28 @@ BAG_LM = [None, -0.5, -4.0]
 BAG_W = [0.0, 0.5, 1.0, 3.0]
 BAG_EVENTS = [('add', t, v, l) for t in BAG_TR for v in BAG_VIS for l in BAG_LM] + [('w', w) for w in BAG_W]
 
+CHARS = ['a', 'b', '\u200b']
+# the state in which the ALTO exporter finds the companions of a line's logits; the first two let it align the transcription, with the others
+# its alignment is not available (TypeError / ValueError inside the exporter, which it handles by reporting a fall-back confidence)
+EXPORT_STATES = ['window-given', 'window-open', 'no-characters', 'no-window', 'window-narrower-than-text', 'text-longer-than-line']
+EXPORT_ALIGNS = {'window-given', 'window-open'}
+# .logits files: (format, frames per character, blank frames of padding on either side, posteriors)
+LOAD_CHARS = ['a', 'b', ' ', '\u200b']
+LOAD_TEXT = 'ab a'
+LOAD_FILES = [(fmt, fpc, pad, kind) for fmt in ('current', 'older') for fpc in (1, 2) for pad in (0, 3) for kind in ('one-hot', 'peaky')]
+
 
 def setup(tier):
     from pero_ocr.core.force_alignment import force_align
     force_align(np.asarray([[0.1, 2.0], [2.0, 0.1]]), [0], 1)
+    export_page('window-given', [0, 2, 1], [0, 1]).to_altoxml_string()      # warm-up (compiled helpers of the exporter) before the workers fork
 
 
 def shards(tier):
     b = BOUNDS[tier]
     out = []
     R = len(ROWS)
-    for t in range(1, b['T'] + 1):
+    for t in range(0, b['T'] + 1):          # T = 0: the root of the input tree, the matrix without frames
         if t <= 2:
             out.append({'kind': 'mat', 'T': t, 'prefix': []})
         else:
@@ -60,6 +81,10 @@ def shards(tier):
     for i in range(len(BAG_EVENTS)):
         out.append({'kind': 'bag', 'first': i})
     out.append({'kind': 'long'})
+    for r in range(R):
+        out.append({'kind': 'export', 'first': r})
+    for i in range(len(LOAD_FILES)):
+        out.append({'kind': 'loads', 'first': i})
     return out
 
 
@@ -73,6 +98,17 @@ def run_shard(shard, ctx, tier):
             for place in ('start', 'middle', 'end'):
                 for n in (1, 2, 4):
                     guarded_check(mod, {'long': [T, place, n]}, ctx)
+        return
+    if shard['kind'] == 'export':
+        for T in range(1, b['Texport'] + 1):
+            for rest in itertools.product(range(len(ROWS)), repeat=T - 1):
+                for labels in labels_for(T):
+                    guarded_check(mod, {'export': [shard['first']] + list(rest), 'labels': labels, 'shifts': T <= b['Texport_shift']}, ctx)
+        return
+    if shard['kind'] == 'loads':
+        for L in range(1, b['load_depth'] + 1):
+            for rest in itertools.product(range(len(LOAD_FILES)), repeat=L - 1):
+                guarded_check(mod, {'loads': [shard['first']] + list(rest)}, ctx)
         return
     if shard['kind'] == 'mat':
         T, prefix = shard['T'], shard['prefix']
@@ -124,6 +160,13 @@ def in01(x):
     return bool(np.all(np.isfinite(x)) and np.all(x >= -1e-12) and np.all(x <= 1 + 1e-12))
 
 
+def far(a, b, tol=TOL):
+    """NaN-aware 'differs by more than tol' (a NaN on either side counts as far; uninitialised memory is handed out as NaN)"""
+    with np.errstate(invalid='ignore'):
+        d = np.abs(np.asarray(a, dtype=float) - np.asarray(b, dtype=float))
+    return not bool(np.all(d <= tol))
+
+
 def check_matrix(case, ctx):
     from pero_ocr.core.confidence_estimation import get_line_confidence, get_letter_confidence
     from pero_ocr.core.force_alignment import force_align, align_text
@@ -153,7 +196,7 @@ def check_matrix(case, ctx):
     ctx.executed()
     if not in01(clc):
         ctx.violation('in-unit-interval', f'{K}/compute_line_confidence/range', f'rows {rows}: {clc}')
-    if onehot and abs(clc - 1) > TOL:
+    if onehot and far(clc, 1):
         ctx.violation('one-hot-gives-1', f'{K}/compute_line_confidence/one-hot', f'rows {rows}: {clc}')
     worst = float(np.exp(np.min(np.max(logp, axis=1))))
     grid = sorted(set(BASE_T + [worst, worst * (1 - 1e-7), worst * (1 + 1e-7), clc]))
@@ -176,12 +219,12 @@ def check_matrix(case, ctx):
         l2 = make_line(rows, sh)
         c2 = float(PageParser.compute_line_confidence(l2))
         ctx.executed()
-        if abs(c2 - clc) > TOL:
+        if far(c2, clc):
             ctx.violation('invariant-to-per-frame-shift', f'{K}/compute_line_confidence/shift',
                           f'rows {rows}, shift {sh}: {clc} -> {c2}')
             break
         d2 = dense_ref(rows, sh)
-        ts = [t for t in BASE_T if abs(t - worst) > 1e-6]      # a threshold equal to the probability is decided by round-off
+        ts = [t for t in BASE_T if not abs(t - worst) <= 1e-6]      # a threshold equal to the probability is decided by round-off
         r2 = [bool(line_confident_enough(d2.copy(), t)) for t in ts]
         r1 = [bool(line_confident_enough(dense.copy(), t)) for t in ts]
         ctx.executed(2 * len(ts))
@@ -195,7 +238,7 @@ def check_matrix(case, ctx):
     c32 = float(PageParser.compute_line_confidence(l32))
     c32b = float(PageParser.compute_line_confidence(l32))
     ctx.executed(2)
-    if abs(c32 - clc) > 1e-5 or c32b != c32:
+    if far(c32, clc, 1e-5) or not c32b == c32:
         ctx.violation('computed-from-the-lines-own-posteriors', f'{K}/compute_line_confidence/float32',
                       f'rows {rows}: float32 logits give {c32} (again: {c32b}), float64 logits {clc}')
         return
@@ -210,13 +253,13 @@ def check_matrix(case, ctx):
         except ValueError:
             continue
         ctx.executed(2)
-        if g32.shape != g64.shape or np.abs(g32 - g64).max() > 1e-5:
+        if g32.shape != g64.shape or far(g32, g64, 1e-5):
             ctx.violation('computed-from-the-lines-own-posteriors', f'{K}/get_line_confidence/float32',
                           f'rows {rows}, labels {labels}: float32 logits give {g32}, float64 logits {g64}')
             return
     c32c = float(PageParser.compute_line_confidence(l32))
     ctx.executed()
-    if c32c != c32:
+    if not c32c == c32:
         ctx.violation('computed-from-the-lines-own-posteriors', f'{K}/compute_line_confidence/changes-after-other-confidence-calls',
                       f'rows {rows}: line confidence {c32} before and {c32c} after the per-character confidences of the same line were computed '
                       f'(stored logits modified: {not np.array_equal(l32.logits.toarray(), keep)})')
@@ -235,11 +278,11 @@ def check_matrix(case, ctx):
         lpg = line.get_full_logprobs()
         ctx.executed(6)
         lab1 = np.asarray([0])
-        ok = abs(got2 - want2) <= TOL and np.array_equal(lpg, lp2)
+        ok = (not far(got2, want2)) and np.array_equal(lpg, lp2)
         if ok and T == 1:
             c_new = np.asarray(get_line_confidence(line, lab1), dtype=float)
             c_ref = np.asarray(get_line_confidence(fresh, lab1), dtype=float)
-            ok = np.abs(c_new - c_ref).max() <= TOL
+            ok = c_new.shape == c_ref.shape and not far(c_new, c_ref)
         if not ok:
             ctx.violation('computed-from-the-lines-own-posteriors', f'{K}/stale-after-logits-reassigned',
                           f'rows {rows}: after assigning the logits of rows {rows2} to the same TextLine, confidences are not those of the new logits '
@@ -270,14 +313,14 @@ def check_matrix(case, ctx):
         ca = np.asarray(get_line_confidence(line, lab, aligned, mine), dtype=float)
         cb = np.asarray(get_line_confidence(line, lab, aligned, mine), dtype=float)
         ctx.executed(2)
-        if ca.shape != conf.shape or cb.shape != conf.shape or np.abs(ca - conf).max() > TOL or np.abs(cb - conf).max() > TOL:
+        if ca.shape != conf.shape or cb.shape != conf.shape or far(ca, conf) or far(cb, conf):
             ctx.violation('computed-from-the-lines-own-posteriors', f'{K}/get_line_confidence/caller-supplied-log-probs',
                           f'rows {rows}, labels {labels}: with the log-posteriors passed in by the caller the first call gives {ca}, the second {cb} '
                           f'(without: {conf}); matrix modified: {not np.array_equal(mine, logp)}', sub)
             continue
         path = [int(np.argmax(dense[t])) for t in range(T)]
         col = [k for k, _ in itertools.groupby(path) if k != 2]
-        if onehot and col == labels and np.abs(conf - 1).max() > TOL:
+        if onehot and col == labels and far(conf, 1):
             ctx.violation('one-hot-gives-1', f'{K}/get_line_confidence/one-hot', f'rows {rows}, labels {labels}: {conf}', sub)
         if onehot and col == labels:
             ctx.tag('one-hot-line')
@@ -296,7 +339,7 @@ def check_matrix(case, ctx):
                 al = align_text(-crop_lp, lab, 2)
                 cw = np.asarray(get_line_confidence(pl, lab, al, crop_lp), dtype=float)
                 ctx.executed(2)
-                if cw.shape != (len(labels),) or np.abs(cw - 1).max() > TOL:
+                if cw.shape != (len(labels),) or far(cw, 1):
                     ctx.violation('one-hot-gives-1', f'{K}/get_line_confidence/one-hot-cropped-window',
                                   f'padded one-hot line for labels {labels}, log-probs cropped to its frame window [2,{2 + len(labels)}]: {cw}', sub)
                     return
@@ -308,7 +351,7 @@ def check_matrix(case, ctx):
             ctx.executed(2)
             if lc.shape != (len(labels),) or not in01(lc):
                 ctx.violation('in-unit-interval', f'{K}/get_letter_confidence/range', f'rows {rows}, labels {labels}: {lc}', sub)
-            elif onehot and col == labels and np.abs(lc - 1).max() > TOL:
+            elif onehot and col == labels and far(lc, 1):
                 ctx.violation('one-hot-gives-1', f'{K}/get_letter_confidence/one-hot', f'rows {rows}, labels {labels}: {lc}', sub)
         else:
             ali = None
@@ -317,14 +360,14 @@ def check_matrix(case, ctx):
             l2 = make_line(rows, sh)
             c2 = np.asarray(get_line_confidence(l2, lab, aligned_letters=aligned), dtype=float)
             ctx.executed()
-            if c2.shape != conf.shape or np.abs(c2 - conf).max() > TOL:
+            if c2.shape != conf.shape or far(c2, conf):
                 ctx.violation('invariant-to-per-frame-shift', f'{K}/get_line_confidence/shift',
                               f'rows {rows}, labels {labels}, shift {sh}: {conf} -> {c2}', sub)
                 break
             if ali is not None:
                 lc2 = np.exp(np.asarray(get_letter_confidence(dense_ref(rows, sh), ali, 2), dtype=float))
                 ctx.executed()
-                if np.abs(lc2 - lc).max() > TOL:
+                if lc2.shape != lc.shape or far(lc2, lc):
                     ctx.violation('invariant-to-per-frame-shift', f'{K}/get_letter_confidence/shift',
                                   f'rows {rows}, labels {labels}, shift {sh}: {lc} -> {lc2}', sub)
                     break
@@ -353,23 +396,23 @@ def check_bag(case, ctx):
         conf = boh.confidence()
         ctx.executed(2)
         desc = f'history {evs[:n + 1]}'
-        if post.shape != (len(model),) or not in01(post) or abs(post.sum() - 1) > TOL:
+        if post.shape != (len(model),) or not in01(post) or far(post.sum(), 1):
             ctx.violation('posteriors-sum-to-1', f'{K}/posteriors-not-a-distribution', f'{desc}: exp(posteriors) = {post}, sum {post.sum()}')
             return
-        if not in01(conf) or abs(conf - post.max()) > TOL:
+        if not in01(conf) or far(conf, post.max()):
             ctx.violation('in-unit-interval', f'{K}/confidence', f'{desc}: confidence {conf}, posteriors {post}')
             return
         if all(l is not None for _, _, l in model) or all(l is None for _, _, l in model):
             tot = np.asarray([v + (w * l if l is not None else 0.0) for _, v, l in model])
             ref = np.exp(tot - np.logaddexp.reduce(tot))
-            if np.abs(ref - post).max() > TOL:
+            if far(ref, post):
                 ctx.violation('posteriors-from-normalised-scores', f'{K}/posteriors-differ-from-softmax',
                               f'{desc}: exp(posteriors) = {post}, soft-max of vis + {w}*lm = {ref}')
                 return
         for t in BAG_TR + ['zz']:
             tc = boh.transcript_confidence(t)
             ctx.executed()
-            if not in01(tc) or (t == 'zz' and tc != 0.0):
+            if not in01(tc) or (t == 'zz' and not tc == 0.0):
                 ctx.violation('in-unit-interval', f'{K}/transcript_confidence', f'{desc}: transcript_confidence({t!r}) = {tc}')
                 return
     ctx.state(('bag', tuple(model), w))
@@ -399,7 +442,7 @@ def check_long(case, ctx):
     if conf.shape != (n,) or not in01(conf) or not in01(clc):
         ctx.violation('in-unit-interval', f'{ID}/long-line/range', f'{T} frames, {n} characters near the {place}: {conf}, line confidence {clc}')
         return
-    if np.abs(conf - conf[0]).max() > 1e-6:
+    if far(conf, conf[0], 1e-6):
         ctx.violation('computed-from-the-lines-own-posteriors', f'{ID}/long-line/position-dependent',
                       f'{T} frames, {n} identically shaped characters near the {place}: confidences differ {conf}')
         return
@@ -408,9 +451,319 @@ def check_long(case, ctx):
         ctx.nontrivial(('long', T, place, n), 'lines-with-more-than-1000-frames')
 
 
+# ------------------------------------------------------------------ (c) what the system reports for a line of a page
+_PARSER = []
+
+
+def page_parser():
+    """a real PageParser that runs no engine: process_page only (re)computes the line confidences"""
+    if not _PARSER:
+        import configparser
+        from pero_ocr.document_ocr.page_parser import PageParser
+        config = configparser.ConfigParser()
+        config['PAGE_PARSER'] = {}
+        _PARSER.append(PageParser(config))
+    return _PARSER[0]
+
+
+def page_of(line_id, text, logits, characters, logit_coords):
+    from pero_ocr.core.layout import PageLayout, RegionLayout, TextLine
+    y = 60.
+    line = TextLine(id=line_id, transcription=text, heights=[20., 8.], baseline=np.array([[20., y], [400., y]]),
+                    polygon=np.array([[20., y - 20], [400., y - 20], [400., y + 8], [20., y + 8]]),
+                    logits=logits, characters=characters, logit_coords=logit_coords)
+    layout = PageLayout(id='page', page_size=(300, 500))
+    region = RegionLayout('r1', np.array([[10., 10.], [450., 10.], [450., 280.], [10., 280.]]))
+    region.lines = [line]
+    layout.regions = [region]
+    return layout
+
+
+def min_frames(labels):
+    return len(labels) + sum(1 for a, b in zip(labels, labels[1:]) if a == b)
+
+
+def export_page(state, rows, labels, shift=None, dtype=np.float64):
+    T = len(rows)
+    text = ''.join('ab'[l] for l in labels)
+    chars, coords = list(CHARS), [0, T]
+    if state == 'window-open':
+        coords = [None, None]                    # what load_logits gives a line whose file has no window
+    elif state == 'no-characters':
+        chars = None                             # a file without character table, and nobody supplied one
+    elif state == 'no-window':
+        coords = None                            # a TextLine built without logit_coords
+    elif state == 'window-narrower-than-text':
+        coords = [0, min_frames(labels) - 1]     # one frame less than the text needs (for a single character: the empty window)
+    elif state == 'text-longer-than-line':
+        text = text + 'ab' * T                   # e.g. corrected by hand: more characters than the line has frames
+    return page_of('l', text, make_line(rows, shift, dtype).logits, chars, coords)
+
+
+def reported_by_export(layout):
+    """(confidence the ALTO export leaves on the line, WC of its words, conf= that a following PAGE XML export writes)"""
+    import lxml.etree as ET
+    root = ET.fromstring(layout.to_altoxml_string().encode('utf-8'))
+    line = next(layout.lines_iterator())
+    left = line.transcription_confidence
+    wc = [float(e.get('WC')) for e in root.iter('{*}String') if e.get('WC') is not None]
+    written = reported_in_page_xml(layout)
+    return (None if left is None else float(left)), wc, written
+
+
+def reported_in_page_xml(layout):
+    import lxml.etree as ET
+    page = ET.fromstring(layout.to_pagexml_string().encode('utf-8'))
+    for tl in page.iter('{*}TextLine'):
+        te = tl.find('{*}TextEquiv')
+        if te is not None and te.get('conf') is not None:
+            return float(te.get('conf'))
+    return None
+
+
+def probabilities(*values):
+    """every value that IS reported (None = nothing reported) is a probability"""
+    return all(in01(v) for v in values if v is not None)
+
+
+def check_parser_report(layout, ctx, key, desc):
+    """PageParser.process_page -> line.transcription_confidence -> conf= in PAGE XML"""
+    page_parser().process_page(None, layout)
+    line = next(layout.lines_iterator())
+    got = line.transcription_confidence
+    written = reported_in_page_xml(layout)
+    ctx.executed(2)
+    if not probabilities(got, written):
+        ctx.violation('in-unit-interval', key, f'{desc}: PageParser.process_page leaves line confidence {got!r}, PAGE XML says conf={written!r}')
+        return None
+    return got
+
+
+def check_export(case, ctx):
+    rows, labels = case['export'], case['labels']
+    T = len(rows)
+    K = f'{ID}/export'
+    ctx.state(('export', tuple(rows), tuple(labels)))
+    dense = dense_ref(rows)
+    onehot = all(r in ONEHOT for r in rows)
+    path = [int(np.argmax(dense[t])) for t in range(T)]
+    spelled = onehot and [k for k, _ in itertools.groupby(path) if k != 2] == list(labels)
+    subsets = []
+    if case.get('shifts'):
+        for c in SHIFTS:
+            for m in range(1, 2 ** T):
+                subsets.append([c if (m >> t) & 1 else 0.0 for t in range(T)])
+    out = []
+    for state in EXPORT_STATES:
+        if 'state' in case and case['state'] != state:
+            continue
+        sub = dict(case, state=state)
+        aligns = state in EXPORT_ALIGNS
+        cls = 'aligned' if aligns else 'alignment-unavailable'
+        desc = f'rows {rows}, transcription {labels}, line state {state!r}'
+        layout = export_page(state, rows, labels)
+        if state == 'window-given':
+            if check_parser_report(layout, ctx, f'{K}/page-parser/range', desc) is None:
+                continue
+        try:
+            conf, wc, written = reported_by_export(layout)
+        except Exception:  # noqa
+            if state != 'text-longer-than-line':
+                raise
+            ctx.tag('export-refused-unalignable-text')    # outside the quantifier (alignable transcriptions): refusing it is no finding
+            continue
+        ctx.executed(2)
+        out.append((state, None if conf is None else round(conf, 6)))
+        if not probabilities(conf, written, *wc):
+            ctx.violation('in-unit-interval', f'{K}/{cls}/range',
+                          f'{desc}: ALTO export leaves line confidence {conf!r}, WC {wc}, PAGE XML then says conf={written!r}', sub)
+            continue
+        if aligns:
+            ctx.tag('export-aligned')
+            if spelled and conf is not None and (far(conf, 1) or far(wc, 1)):
+                ctx.violation('one-hot-gives-1', f'{K}/{cls}/one-hot', f'{desc}: one-hot posteriors that spell the transcription, reported line confidence '
+                              f'{conf!r}, WC {wc}', sub)
+                continue
+            if spelled:
+                ctx.tag('export-one-hot-line')
+        else:
+            ctx.nontrivial(('export', tuple(rows), tuple(labels), state), 'export-alignment-unavailable')
+            if state == 'window-narrower-than-text' and min_frames(labels) == 1:
+                ctx.tag('export-empty-window')
+        # shift invariance of what is reported.  With an alignment only where it is forced (one frame per character): elsewhere the exporter
+        # aligns the shifted copy itself, and round-off may legitimately resolve a tie between alignments differently
+        if aligns and T != len(labels):
+            continue
+        for sh in subsets:
+            c2, wc2, wr2 = reported_by_export(export_page(state, rows, labels, sh))
+            ctx.executed(2)
+            same = (c2 is None) == (conf is None) and (wr2 is None) == (written is None) and len(wc2) == len(wc)
+            if same and conf is not None:
+                same = not far(c2, conf)
+            if same and written is not None:
+                same = not far(wr2, written, 0.0011)           # written with three decimals
+            if same and wc:
+                same = not far(wc2, wc, 0.011)                 # written with two decimals
+            if not same:
+                ctx.violation('invariant-to-per-frame-shift', f'{K}/{cls}/shift',
+                              f'{desc}, shift {sh}: reported line confidence {conf!r} -> {c2!r}, WC {wc} -> {wc2}, PAGE XML conf {written!r} -> {wr2!r}', sub)
+                break
+        else:
+            if subsets:
+                ctx.tag('export-shifted')
+    ctx.outcome(('export', tuple(out)))
+
+
+def check_no_frames(case, ctx):
+    """the root of the input tree: a line whose logit matrix has no frame (the engine produces such matrices for crops narrower than one
+    output frame).  Such a line may be refused (any exception); a confidence that IS reported for it has to be a probability."""
+    from pero_ocr.core.confidence_estimation import get_line_confidence
+    from pero_ocr.document_ocr.page_parser import PageParser, line_confident_enough
+    K = f'{ID}'
+    ctx.state(())
+    out = []
+    for dtype in (np.float64, np.float32):
+        for coords in ([0, 0], [None, None]):
+            desc = f'line without frames ({np.dtype(dtype).name} logits of shape (0, 3), logit_coords {coords})'
+            line = make_line([], dtype=dtype)
+            line.logit_coords = coords
+            try:
+                clc = PageParser.compute_line_confidence(line)
+            except Exception:  # noqa
+                clc = None
+            ctx.executed()
+            if clc is not None:
+                ctx.tag('line-without-frames')
+                if not in01(clc):
+                    ctx.violation('in-unit-interval', f'{K}/compute_line_confidence/range', f'{desc}: {clc!r}')
+                    continue
+            try:
+                conf = np.asarray(get_line_confidence(line, np.asarray([], dtype=int)), dtype=float)
+            except Exception:  # noqa
+                conf = None
+            ctx.executed()
+            if conf is not None and (conf.shape != (0,) or not in01(conf)):
+                ctx.violation('in-unit-interval', f'{K}/get_line_confidence/range', f'{desc}, no labels: {conf}')
+                continue
+            # the page: PageParser.process_page, then the exports (a transcription cannot be aligned to no frames: the exporter's fall-back value)
+            layout = page_of('l', 'a', make_line([], dtype=dtype).logits, list(CHARS), coords)
+            try:
+                got = check_parser_report(layout, ctx, f'{K}/export/page-parser/range', desc)
+                rep = reported_by_export(layout)
+            except Exception:  # noqa
+                continue
+            ctx.executed(2)
+            if got is None:
+                continue
+            if not probabilities(rep[0], rep[2], *rep[1]):
+                ctx.violation('in-unit-interval', f'{K}/export/alignment-unavailable/range',
+                              f'{desc}: ALTO export leaves line confidence {rep[0]!r}, WC {rep[1]}, PAGE XML then says conf={rep[2]!r}')
+                continue
+            ctx.tag('page-with-a-line-without-frames')
+            out.append((None if clc is None else round(float(clc), 6), round(float(got), 6), rep[0]))
+    # the confident-line test on the matrix without frames: it may refuse; what it answers must be monotone in the threshold
+    res = []
+    for t in BASE_T:
+        try:
+            res.append(bool(line_confident_enough(np.zeros((0, 3)), t)))
+        except Exception:  # noqa
+            res.append(None)
+        ctx.executed()
+    ans = [(t, r) for t, r in zip(BASE_T, res) if r is not None]
+    for (t1, r1), (t2, r2) in zip(ans, ans[1:]):
+        if r2 and not r1:
+            ctx.violation('confident-test-monotone-in-threshold', f'{K}/line_confident_enough/not-monotone',
+                          f'matrix without frames: confident at threshold {t2} but not at the lower threshold {t1}')
+            break
+    ctx.outcome(('no-frames', tuple(out), tuple(res)))
+
+
+# ------------------------------------------------------------------ (d) histories of load_logits on one live PageLayout
+_LOAD_MEMO = {}
+
+
+def load_matrix(fpc, pad, kind):
+    from scipy import sparse
+    blank = len(LOAD_CHARS) - 1
+    seq = [blank] * pad
+    for ch in LOAD_TEXT:
+        seq += [LOAD_CHARS.index(ch)] * fpc + [blank]
+    seq += [blank] * pad
+    hi, lo = (20.0, -20.0) if kind == 'one-hot' else (3.0, 0.5)
+    M = np.full((len(seq), len(LOAD_CHARS)), lo)
+    M[np.arange(len(seq)), seq] = hi
+    return sparse.csc_matrix(M)
+
+
+def load_file(i):
+    """the bytes of .logits file i: the current format is written by the library itself (save_logits_bytes), the older one is a pickled
+    dict of the matrices only"""
+    if ('file', i) not in _LOAD_MEMO:
+        import pickle
+        fmt, fpc, pad, kind = LOAD_FILES[i]
+        M = load_matrix(fpc, pad, kind)
+        if fmt == 'older':
+            data = pickle.dumps({'l1': M}, protocol=4)
+        else:
+            data = page_of('l1', LOAD_TEXT, M, list(LOAD_CHARS), [pad, M.shape[0] - pad]).save_logits_bytes()
+        _LOAD_MEMO[('file', i)] = data
+    return _LOAD_MEMO[('file', i)]
+
+
+def load_and_export(layout, i):
+    layout.load_logits(load_file(i))
+    if LOAD_FILES[i][0] == 'older':
+        for line in layout.lines_iterator():
+            line.characters = list(LOAD_CHARS)        # the older format has no character table: its user supplies it
+    return reported_by_export(layout)
+
+
+def fresh_report(i):
+    """what a fresh page that loads only file i reports (memo keyed by the file alone: nothing else goes in)"""
+    if ('fresh', i) not in _LOAD_MEMO:
+        _LOAD_MEMO[('fresh', i)] = load_and_export(page_of('l1', LOAD_TEXT, None, None, None), i)
+    return _LOAD_MEMO[('fresh', i)]
+
+
+def check_loads(case, ctx):
+    hist = case['loads']
+    K = f'{ID}/load-history'
+    layout = page_of('l1', LOAD_TEXT, None, None, None)         # a page as read from PAGE XML: no logits yet
+    conf = None
+    for n, i in enumerate(hist):
+        desc = f'history of load_logits {[LOAD_FILES[j] for j in hist[:n + 1]]}, then ALTO export'
+        conf, wc, written = load_and_export(layout, i)
+        ctx.executed(3)
+        if not probabilities(conf, written, *wc):
+            ctx.violation('in-unit-interval', f'{K}/range', f'{desc}: line confidence {conf!r}, WC {wc}, PAGE XML conf={written!r}')
+            return
+        if LOAD_FILES[i][3] == 'one-hot' and (conf is None or far(conf, 1) or not wc or far(wc, 1)):
+            ctx.violation('one-hot-gives-1', f'{K}/one-hot',
+                          f'{desc}: the posteriors now on the line are one-hot and spell the transcription, reported line confidence {conf!r}, WC {wc}')
+            return
+        f_conf, f_wc, f_written = fresh_report(i)
+        ctx.executed(3)
+        if (conf is None) != (f_conf is None) or len(wc) != len(f_wc) or (conf is not None and far(conf, f_conf)) or (wc and far(wc, f_wc, 0.011)):
+            ctx.violation('computed-from-the-lines-own-posteriors', f'{K}/differs-from-fresh-page',
+                          f'{desc}: line confidence {conf!r}, WC {wc}; a fresh page that loaded only the last file reports {f_conf!r}, WC {f_wc}')
+            return
+    ctx.state(('loads', tuple(hist)))
+    ctx.outcome(('loads', None if conf is None else round(conf, 6)))
+    if len(hist) >= 2 and LOAD_FILES[hist[-1]][:3] != LOAD_FILES[hist[-2]][:3]:
+        ctx.nontrivial(('loads', tuple(hist)), 'logits-reloaded-on-a-live-page')
+        if LOAD_FILES[hist[-1]][0] == 'older' and LOAD_FILES[hist[-2]][0] == 'current':
+            ctx.tag('older-format-loaded-over-current-format')
+
+
 def check_case(case, ctx):
     if 'long' in case:
         return check_long(case, ctx)
+    if 'export' in case:
+        return check_export(case, ctx)
+    if 'loads' in case:
+        return check_loads(case, ctx)
+    if 'rows' in case and len(case['rows']) == 0:
+        return check_no_frames(case, ctx)
     if 'bag' in case:
         check_bag(case, ctx)
     else:
@@ -430,6 +783,8 @@ def describe(tier):
         'assumptions': ['tolerance 1e-9 on shift invariance and normalisation', 'alignment is computed once and reused for the shifted copy, '
                         'so that round-off cannot flip a tie in the alignment'],
         'min_nontrivial': 100,
-        'required_tags': ['frame-shifted-below-the-floor-of-pruned-entries', 'cropped-window-call', 'float32-logits', 'lines-with-more-than-1000-frames', 'logits-reassigned-on-a-live-line', 'aligned-ctc-line', 'one-hot-line', 'one-frame-per-label-line', 'threshold-grid-splits',
+        'required_tags': ['line-without-frames', 'page-with-a-line-without-frames', 'export-aligned', 'export-one-hot-line', 'export-alignment-unavailable', 'export-empty-window',
+                          'export-shifted', 'logits-reloaded-on-a-live-page', 'older-format-loaded-over-current-format',
+                          'frame-shifted-below-the-floor-of-pruned-entries', 'cropped-window-call', 'float32-logits', 'lines-with-more-than-1000-frames', 'logits-reassigned-on-a-live-line', 'aligned-ctc-line', 'one-hot-line', 'one-frame-per-label-line', 'threshold-grid-splits',
                           'bag-weight-changed-between-queries'],
     }
